@@ -18,6 +18,8 @@ struct Swarm {
     /// weights of first-word sources: fresh, extreme
     w_fresh: u32,
     w_extreme: u32,
+    /// words aimed at fibre boundaries among the first words of range calls
+    w_aimed: bool,
     dyn_rate: u64, // in 1/4
 }
 
@@ -319,15 +321,41 @@ fn fault_plan(p: &mut Prng, sw: &Swarm) -> Option<Plan> {
     })
 }
 
-fn first_word(p: &mut Prng, sw: &Swarm, w: usize, db: usize) -> Plan {
-    match p.weighted(&[sw.w_fresh, sw.w_extreme]) {
+/// A word aimed at the boundary between two fibres under the multiply-shift reading of a range of `r` values over
+/// `w`-byte words: the last word of a fibre (ceil(k * 2^W / r) - 1, the word a rejection threshold is about), the
+/// first word of the next one, or a neighbour of either. For any other kind of sampler it is just one more word.
+pub fn aimed_word(p: &mut Prng, w: usize, r: &[u8]) -> Vec<u8> {
+    let rm1 = refint::add_small(r, -1);
+    // k in 1..=r: start of fibre k (k = r: one past the last word)
+    let k = refint::add_small(&below_incl(p, &rm1), 1);
+    let mut kk = vec![0u8; w + 1];
+    kk[..w].copy_from_slice(&k);
+    if refint::is_zero(&k) {
+        kk[w] = 1; // r = 2^W cannot occur here (r has w bytes); k wrapped only if r - 1 = MAX
+    }
+    let start = refint::fibre_start(&kk, r, w).unwrap_or_else(|| vec![0u8; w]);
+    let d = [-1i64, -1, -1, 0, 0, -2, 1, -3][p.below(8) as usize];
+    refint::add_small(&start, d)
+}
+
+fn first_word(p: &mut Prng, sw: &Swarm, w: usize, db: usize, aim: Option<&Vec<u8>>) -> Plan {
+    // aimed words cost a w-byte division each: frequent on small types, rare on big ones, never on the giants
+    let w_aimed = match (aim, w) {
+        (None, _) => 0,
+        (_, 0..=16) => 3,
+        (_, 17..=64) => 2,
+        (_, 65..=160) => 1,
+        _ => 0,
+    };
+    match p.weighted(&[sw.w_fresh * 2, sw.w_extreme * 2, if sw.w_aimed { w_aimed } else { 0 }]) {
         0 => Plan::Fresh,
-        _ => Plan::Fixed(extreme_word(p, w, db)),
+        1 => Plan::Fixed(extreme_word(p, w, db)),
+        _ => Plan::Fixed(aimed_word(p, w, aim.unwrap())),
     }
 }
 
 /// response plan for one call of a range entry point
-fn range_call_plan(p: &mut Prng, sw: &Swarm, w: usize, db: usize) -> Vec<Plan> {
+fn range_call_plan(p: &mut Prng, sw: &Swarm, w: usize, db: usize, aim: Option<&Vec<u8>>) -> Vec<Plan> {
     let mut plan = Vec::new();
     let f = fault_plan(p, sw);
     // faults land inside the call: on the first draw, or right after a (possible) rejection
@@ -338,7 +366,7 @@ fn range_call_plan(p: &mut Prng, sw: &Swarm, w: usize, db: usize) -> Vec<Plan> {
         if let (Some(fp), true) = (&f, i == fault_at) {
             plan.push(fp.clone());
         }
-        plan.push(first_word(p, sw, w, db));
+        plan.push(first_word(p, sw, w, db, aim));
         if sw.fault_stall && p.chance(1, 6) && !long_stall_used {
             // how long the source stays stuck on the rejected word; occasionally very long (a retry cap in the
             // sampler, if there were one, would be crossed)
@@ -384,7 +412,7 @@ fn fill_call_plan(p: &mut Prng, sw: &Swarm, w: usize, db: usize) -> Vec<Plan> {
             more_faults -= 1;
             plan.push(f.clone().unwrap());
         }
-        plan.push(first_word(p, sw, w, db));
+        plan.push(first_word(p, sw, w, db, None));
     }
     if let (Some(fp), true) = (&f, fault_at >= n) {
         for _ in 0..burst {
@@ -399,12 +427,13 @@ pub fn make_run(seed: u64, run: u64, menu: &[Box<dyn TyObj>]) -> RunSpec {
     let mut p = Prng::new(s);
     let mut ti = pick_type(&mut p, menu);
     let mode = match p.below(80) {
-        0..=27 => 1u8,  // cluster run
-        28..=43 => 2,   // fault-free twin of the mixed workload
-        44 | 45 => 3,   // fibre walk: exact fibre sizes at any width
-        46 | 47 => 4,   // span probe: exact block sizes of chosen values when fibres are huge
-        48 => 5,        // census: every value of a small range turns up, none absurdly often
-        49 | 50 => 6,   // interleaved tasks: results must not depend on the schedule
+        0..=23 => 1u8,  // cluster run
+        24..=37 => 2,   // fault-free twin of the mixed workload
+        38 | 39 => 3,   // fibre walk: exact fibre sizes at any width
+        40 | 41 => 4,   // span probe: exact block sizes of chosen values when fibres are huge
+        42 => 5,        // census: every value of a small range turns up, none absurdly often
+        43..=45 => 6,   // interleaved tasks: results must not depend on the schedule
+        46..=53 => 7,   // division hunt: two-target span probes through the Uniform constructor on small multi-digit types
         _ => 0,         // mixed workload with faults
     };
     if mode == 6 {
@@ -417,6 +446,12 @@ pub fn make_run(seed: u64, run: u64, menu: &[Box<dyn TyObj>]) -> RunSpec {
         if !cands.is_empty() {
             ti = cands[p.below(cands.len() as u64) as usize];
         }
+    }
+    if mode == 7 {
+        // the constructor's division is the only multi-digit division behind C20; at these widths a block measurement
+        // costs a few hundred calls, so many range sizes can be tried
+        let cands: Vec<usize> = (0..menu.len()).filter(|&i| menu[i].bytes() <= 24 && menu[i].bytes() / menu[i].digit_bytes() >= 2).collect();
+        ti = cands[p.below(cands.len() as u64) as usize];
     }
     let ty = &menu[ti];
     let (w, db, signed) = (ty.bytes(), ty.digit_bytes(), ty.signed());
@@ -431,6 +466,7 @@ pub fn make_run(seed: u64, run: u64, menu: &[Box<dyn TyObj>]) -> RunSpec {
         fault_rate: [8, 20, 40][p.below(3) as usize],
         w_fresh: [1, 4, 8][p.below(3) as usize],
         w_extreme: [0, 1, 4][p.below(3) as usize],
+        w_aimed: p.chance(2, 3),
         dyn_rate: [0, 0, 1, 4][p.below(4) as usize],
     };
     // per-run weights over the bound shapes (swarm): a random subset is switched off
@@ -448,7 +484,9 @@ pub fn make_run(seed: u64, run: u64, menu: &[Box<dyn TyObj>]) -> RunSpec {
     // error code carried by injected RNG errors: a custom code, OS-style codes (EINTR, EIO, EAGAIN), an internal one
     let err_code = [0xC000_0007u32, 0xC000_0007, 4, 5, 11, 0x8000_0001, 0xC000_0000, 1][p.below(8) as usize];
     let mut ops = Vec::new();
-    if mode == 5 {
+    if mode == 7 {
+        ops.push(div_hunt_op(&mut p, &sw, w, db, signed));
+    } else if mode == 5 {
         ops.push(census_op(&mut p, &sw, w, db, signed));
     } else if mode == 4 {
         ops.push(span_op(&mut p, &sw, w, db, signed));
@@ -484,20 +522,20 @@ fn mixed_op(p: &mut Prng, sw: &Swarm, w: usize, db: usize, signed: bool, shape_w
             let (r, shape) = gen_rsize(p, w, db, shape_w);
             let (low, hi) = place(p, w, db, signed, &r);
             let (low, high, inclusive) = api_bounds(p, w, signed, low, hi);
-            Op { kind: OpKind::GenRange { low, high, inclusive }, dynamic, calls: (0..1 + p.below(3)).map(|_| range_call_plan(p, sw, w, db)).collect(), shape }
+            Op { kind: OpKind::GenRange { low, high, inclusive }, dynamic, calls: (0..1 + p.below(3)).map(|_| range_call_plan(p, sw, w, db, r.as_ref())).collect(), shape }
         }
         2 => {
             let (r, shape) = gen_rsize(p, w, db, shape_w);
             let (low, hi) = place(p, w, db, signed, &r);
             let (low, high, inclusive) = api_bounds(p, w, signed, low, hi);
-            Op { kind: OpKind::Single { low, high, inclusive, by_ref: p.chance(1, 2) }, dynamic, calls: (0..1 + p.below(3)).map(|_| range_call_plan(p, sw, w, db)).collect(), shape }
+            Op { kind: OpKind::Single { low, high, inclusive, by_ref: p.chance(1, 2) }, dynamic, calls: (0..1 + p.below(3)).map(|_| range_call_plan(p, sw, w, db, r.as_ref())).collect(), shape }
         }
         3 => {
             let (r, shape) = gen_rsize(p, w, db, shape_w);
             let (low, hi) = place(p, w, db, signed, &r);
             let (low, high, inclusive) = api_bounds(p, w, signed, low, hi);
             let ctor = [Ctor::Val, Ctor::Ref, Ctor::FromRange, Ctor::Sampler][p.below(4) as usize];
-            Op { kind: OpKind::Uniform { low, high, inclusive, ctor }, dynamic, calls: (0..1 + p.below(8)).map(|_| range_call_plan(p, sw, w, db)).collect(), shape }
+            Op { kind: OpKind::Uniform { low, high, inclusive, ctor }, dynamic, calls: (0..1 + p.below(8)).map(|_| range_call_plan(p, sw, w, db, r.as_ref())).collect(), shape }
         }
         4 => {
             let len = match p.below(50) {
@@ -589,6 +627,15 @@ fn cluster_op(p: &mut Prng, sw: &Swarm, w: usize, db: usize, signed: bool, shape
                 words.push(up.clone());
                 words.push(dn.clone());
             }
+        }
+    }
+    // words at fibre boundaries (with large q the neighbours of a random word are all interior words)
+    if let (Some(r), true) = (&r, w <= 160) {
+        for _ in 0..if w <= 64 { 3 } else { 1 } {
+            let a = aimed_word(p, w, r);
+            words.push(refint::add_small(&a, 1));
+            words.push(refint::add_small(&a, -1));
+            words.push(a);
         }
     }
     for k in 0..7u64 {
@@ -714,9 +761,19 @@ fn census_op(p: &mut Prng, sw: &Swarm, w: usize, db: usize, signed: bool) -> Op 
 /// bounds in another type) so that state keyed on part of the arguments would collide, plus a seeded schedule
 fn tasks_run(seed: u64, run: u64, p: &mut Prng, menu: &[Box<dyn TyObj>]) -> RunSpec {
     let small: Vec<usize> = (0..menu.len()).filter(|&i| menu[i].bytes() <= 64).collect();
-    let t0 = small[p.below(small.len() as u64) as usize];
+    // Half of these runs hunt for collisions in state keyed on part of a call's arguments: all tasks use types of one
+    // family (same digit type and signedness: what one generic function body — and a `static` inside it — serves),
+    // the same entry point, closely related ranges, and words aimed at rejection boundaries.
+    let hunt = p.chance(1, 2);
+    let t0 = if hunt && p.chance(7, 10) {
+        let wide: Vec<usize> = small.iter().copied().filter(|&i| menu[i].bytes() > 16).collect();
+        wide[p.below(wide.len() as u64) as usize]
+    } else {
+        small[p.below(small.len() as u64) as usize]
+    };
+    let hunt_kind = p.weighted(&[6, 2, 2]);
     let n_tasks = if p.chance(1, 3) { 3 } else { 2 };
-    let faults_on = p.chance(1, 3);
+    let faults_on = !hunt && p.chance(1, 3);
     let sw = Swarm {
         fault_err: faults_on && p.chance(1, 2),
         fault_partial: faults_on && p.chance(1, 2),
@@ -725,8 +782,10 @@ fn tasks_run(seed: u64, run: u64, p: &mut Prng, menu: &[Box<dyn TyObj>]) -> RunS
         fault_rate: [8, 20][p.below(2) as usize],
         w_fresh: [1, 4, 8][p.below(3) as usize],
         w_extreme: [0, 1, 4][p.below(3) as usize],
+        w_aimed: hunt || p.chance(2, 3),
         dyn_rate: [0, 0, 1, 4][p.below(4) as usize],
     };
+    let sw = if hunt { Swarm { w_fresh: 1, w_extreme: 1, ..sw } } else { sw };
     let mut shape_w = [6u32, 5, 5, 6, 5, 6, 14, 14, 3, 5, 6, 6, 8, 5, 7];
     for x in shape_w.iter_mut() {
         if p.chance(1, 4) {
@@ -736,11 +795,34 @@ fn tasks_run(seed: u64, run: u64, p: &mut Prng, menu: &[Box<dyn TyObj>]) -> RunS
     shape_w[6] += 1;
     // the base range, in the first task's type
     let (bw, bdb, bsigned) = (menu[t0].bytes(), menu[t0].digit_bytes(), menu[t0].signed());
-    let (br, _) = gen_rsize(p, bw, bdb, &shape_w);
+    let (mut br, _) = gen_rsize(p, bw, bdb, &shape_w);
+    if hunt && p.chance(4, 5) {
+        // sizes that fit a machine word (what a word-sized memo can hold), rarely a power of two
+        let bits = if p.chance(3, 5) { 2 + p.below(31) } else { 2 + p.below(63) } as usize;
+        let bits = bits.min(bw * 8 - 1);
+        let mut v = p.bytes(bw);
+        for (i, x) in v.iter_mut().enumerate() {
+            let lo = i * 8;
+            if lo >= bits {
+                *x = 0;
+            } else if lo + 8 > bits {
+                *x &= ((1u16 << (bits - lo)) - 1) as u8;
+            }
+        }
+        v[(bits - 1) / 8] |= 1 << ((bits - 1) % 8);
+        v[0] |= p.below(2) as u8;
+        br = Some(v);
+    }
     let (blow, bhigh) = place(p, bw, bdb, bsigned, &br);
     let mut tasks = Vec::new();
     for ti in 0..n_tasks {
-        let tyi = if ti == 0 || p.chance(1, 2) {
+        let tyi = if ti == 0 {
+            t0
+        } else if hunt {
+            // same family; another width three times out of five
+            let fam: Vec<usize> = small.iter().copied().filter(|&i| menu[i].digit_bytes() == bdb && menu[i].signed() == bsigned && (menu[i].bytes() > 16) == (bw > 16)).collect();
+            if p.chance(3, 5) && fam.len() > 1 { fam[p.below(fam.len() as u64) as usize] } else { t0 }
+        } else if p.chance(1, 2) {
             t0
         } else {
             match p.below(3) {
@@ -758,7 +840,7 @@ fn tasks_run(seed: u64, run: u64, p: &mut Prng, menu: &[Box<dyn TyObj>]) -> RunS
         let mut ops = Vec::new();
         for _ in 0..1 + p.below(3) {
             let dynamic = p.below(4) < sw.dyn_rate;
-            let kind_sel = p.weighted(&[8, 4, 4, 2, 2]);
+            let kind_sel = if hunt { hunt_kind } else { p.weighted(&[8, 4, 4, 2, 2]) };
             if kind_sel == 3 {
                 ops.push(Op { kind: OpKind::Gen, dynamic, calls: (0..1 + p.below(3)).map(|_| fill_call_plan(p, &sw, w, db)).collect(), shape: 0 });
                 continue;
@@ -770,11 +852,24 @@ fn tasks_run(seed: u64, run: u64, p: &mut Prng, menu: &[Box<dyn TyObj>]) -> RunS
                 continue;
             }
             // bounds: related to the base range (so that state keyed on part of the arguments collides), or fresh
-            let (low, high_incl, shape) = if p.chance(3, 5) {
+            let (low, high_incl, shape) = if hunt || p.chance(3, 5) {
                 let mut lo = refint::resize(&blow, w, bsigned);
                 let mut hi = refint::resize(&bhigh, w, bsigned);
-                match p.below(6) {
+                match if hunt { [0u64, 0, 0, 4, 4, 6, 6, 1, 3, 5][p.below(10) as usize] } else { p.below(7) } {
                     0 => {}
+                    6 => {
+                        // the size XOR-ed with the difference of the two widths at a byte position: what collides when a
+                        // key is packed as `size ^ (BITS << s)` or `(BITS << s) | size`
+                        let mut sz = refint::sub(&hi, &lo);
+                        let x = ((w * 8) ^ (bw * 8)) as u64;
+                        let s = [2usize, 4, 5, 6, 7][p.below(5) as usize];
+                        for (i, b) in x.to_le_bytes().iter().enumerate() {
+                            if s + i < w {
+                                sz[s + i] ^= b;
+                            }
+                        }
+                        hi = refint::add(&lo, &sz);
+                    }
                     1 => {
                         // same low bytes, different upper bytes
                         let k = w / 2 + p.below((w - w / 2) as u64) as usize;
@@ -811,9 +906,10 @@ fn tasks_run(seed: u64, run: u64, p: &mut Prng, menu: &[Box<dyn TyObj>]) -> RunS
                 let (lo, hi) = place(p, w, db, signed, &r);
                 (lo, hi, shape)
             };
+            let rr = refint::range_size(&low, &high_incl);
             let (low, high, inclusive) = api_bounds(p, w, signed, low, high_incl);
-            let ncalls = 1 + p.below(4);
-            let calls: Vec<Vec<Plan>> = (0..ncalls).map(|_| range_call_plan(p, &sw, w, db)).collect();
+            let ncalls = if hunt { 2 + p.below(4) } else { 1 + p.below(4) };
+            let calls: Vec<Vec<Plan>> = (0..ncalls).map(|_| range_call_plan(p, &sw, w, db, rr.as_ref())).collect();
             let kind = match kind_sel {
                 0 => OpKind::Uniform { low, high, inclusive, ctor: [Ctor::Val, Ctor::Ref, Ctor::FromRange, Ctor::Sampler][p.below(4) as usize] },
                 1 => OpKind::Single { low, high, inclusive, by_ref: p.chance(1, 2) },
@@ -833,4 +929,25 @@ fn tasks_run(seed: u64, run: u64, p: &mut Prng, menu: &[Box<dyn TyObj>]) -> RunS
     let fresh_seed = p.next();
     let err_code = [0xC000_0007u32, 4, 5, 11][p.below(4) as usize];
     RunSpec { seed, run, ty: tasks[0].ty.clone(), infallible, fresh_seed, err_code, ops: Vec::new(), mode: 6, tasks, schedule }
+}
+
+/// a two-target span probe through a Uniform object, range sizes of every magnitude
+fn div_hunt_op(p: &mut Prng, sw: &Swarm, w: usize, db: usize, signed: bool) -> Op {
+    //            1  2..3 2^k 2^k+-1 digit dig-bdry q  q  2^W-1 full uniform small log ones pattern
+    let weights = [0u32, 0, 1, 2, 0, 3, 3, 3, 0, 0, 8, 0, 16, 6, 8];
+    let (r, shape) = gen_rsize(p, w, db, &weights);
+    let (low, high_incl) = place(p, w, db, signed, &r);
+    let (low, high, inclusive) = api_bounds(p, w, signed, low, high_incl);
+    let rm1 = match &r {
+        Some(r) => refint::add_small(r, -1),
+        None => vec![0xFFu8; w],
+    };
+    let mut targets = vec![vec![0u8; w], below_incl(p, &rm1)];
+    if p.chance(1, 2) {
+        targets.push(rm1.clone());
+    }
+    targets.sort();
+    targets.dedup();
+    let dynamic = p.below(4) < sw.dyn_rate;
+    Op { kind: OpKind::SpanProbe { low, high, inclusive, via: 2, targets }, dynamic, calls: Vec::new(), shape }
 }
